@@ -180,6 +180,14 @@ func runC18(c *Ctx, idx int) {
 		}
 		return
 	}
+	if idx%8 == 3 {
+		// (also beside the other cases, in several processes: whether accesses collide is a matter of the schedule)
+		defer func() {
+			if !c.Violated() {
+				c18Concurrent(c)
+			}
+		}()
+	}
 	scalarCases := len(refActs) * c18Batches
 	n := 60000
 	if c.Tier == "thorough" {
@@ -576,25 +584,33 @@ func c18Concurrent(c *Ctx) {
 	defer runtime.GOMAXPROCS(prev)
 	var wg sync.WaitGroup
 	bad := make([]string, len(types))
+	start := make(chan struct{})
+	const perGoroutine = 150000
 	for gi, t := range types {
 		wg.Add(1)
 		go func(gi int, t neatmath.NodeActivationType) {
 			defer wg.Done()
+			<-start // all goroutines begin together
 			x := 0.1 + float64(gi)*0.37
-			for k := 0; k < 40000; k++ {
+			for k := 0; k < perGoroutine; k++ {
 				xx := x + float64(k%97)*0.01
-				y, err := factory.ActivateByType(xx, nil, t)
-				w := refActivation(t, xx)
+				tt := t
+				if k%3 == 2 {
+					tt = types[(gi+1+k%5)%len(types)] // (a network activates neurons of different types in turn)
+				}
+				y, err := factory.ActivateByType(xx, nil, tt)
+				w := refActivation(tt, xx)
 				if err != nil || math.Abs(y-w) > 1e-12*math.Max(math.Abs(w), math.Abs(y))+1e-18 {
-					bad[gi] = fmt.Sprintf("type %d at %v: got %v (%v), the closed form gives %v", t, xx, y, err, w)
+					bad[gi] = fmt.Sprintf("type %d at %v: got %v (%v), the closed form gives %v", tt, xx, y, err, w)
 					return
 				}
 			}
 		}(gi, t)
 	}
+	close(start)
 	wg.Wait()
-	c.Eval(len(types) * 40000)
-	c.Count("scalar.concurrent_evaluations", len(types)*40000)
+	c.Eval(len(types) * perGoroutine)
+	c.Count("scalar.concurrent_evaluations", len(types)*perGoroutine)
 	for _, b := range bad {
 		if b != "" {
 			c.Violate("concurrent-value", map[string]interface{}{"key": "concurrent"}, "while %d goroutines activated different types through the shared factory: %s", len(types), b)
